@@ -988,6 +988,8 @@ class list_t(object):
         
     def clear(self):
         self.get_model().clear()
+        # The objects of a list of objects are held here as well
+        self.backing_arr.clear()
 
     def __contains__(self, lhs):
         if get_expr_mode():
@@ -1108,7 +1110,16 @@ class list_t(object):
             self.get_model().field_l[k].set_val(
                 ValueScalar(int(v) & (1 << self.t.width)-1))
         else:
+            if not issubclass(type(v), type(self.t)):
+                raise Exception("Attempting to assign illegal element to object array")
             self.backing_arr[k] = v
+            # The element's model takes the place of the previous one
+            model = self.get_model()
+            fm = v.get_model()
+            fm.parent = model
+            fm.is_declared_rand = model.is_declared_rand
+            model.field_l[k] = fm
+            model.name_elems()
             
     def __str__(self):
         model = self.get_model()
